@@ -148,7 +148,8 @@ CLAIMS = {
              "(with the repaired guard; without it TLC finds the overflow) and the curve-search status machine. Step sequences on a real "
              "bundle_t (cuts read through the guarded accessors) are re-derived by TLC; RQB/FPBA1/FPBA2/ellipsoid on sharp objectives: "
              "`converged` implies the stated gap, the ellipsoid converges within 20000 evaluations for n <= 6.",
-        note="The n-dimensional real-valued certificate is observed per run (driver oracle with known minimise One open finding: the ellipsoid method with epsilon <= 5e-8 and a warm start (known_findings.json)."), exact only in 1-D."),
+        note="The n-dimensional real-valued certificate is observed per run (driver oracle with known minimiser), exact only in 1-D. "
+             "One open finding: the ellipsoid method with epsilon <= 5e-8 and a warm start (known_findings.json)."),
     "C04": dict(
         category="exploration", design_ref="DESIGN.md §3 C04",
         technique="TLC model checking of InteriorPoint.tla + exact vertex enumeration of small integer LPs in TLC (LinProg.tla) + TLC validation of KKT-constructed / planted / restated programs (ProgramTrace.tla)",
